@@ -291,8 +291,24 @@ func generate(f Family, rngSeed uint64, tier string) *Scenario {
 	done := make(chan *Scenario, 1)
 	go func() {
 		g := &Gen{Runner: NewRunner(rngSeed), rng: mrand.New(mrand.NewSource(int64(rngSeed))), tags: map[string]bool{}, tier: tier}
-		f.Gen(g)
-		g.reprobe()
+		func() {
+			// a generator that refers to the result of an earlier command as a tensor when the library did not
+			// return one (possible only when the library misbehaves) stops there: the commands executed so far are
+			// still compared with the model, which is where the misbehaviour shows
+			defer func() {
+				if p := recover(); p != nil {
+					msg := fmt.Sprint(p)
+					if len(msg) > 8 && msg[:8] == "harness:" {
+						g.Cmds = g.Cmds[:len(g.env)]
+						g.tags["generator-stopped-early"] = true
+						return
+					}
+					panic(p)
+				}
+			}()
+			f.Gen(g)
+			g.reprobe()
+		}()
 		g.Finish()
 		tags := []string{}
 		for t := range g.tags {
